@@ -74,8 +74,19 @@ def modules():
     """number modules in the order the application iterates them"""
     global _MODS
     if _MODS is None:
-        from stdnum.util import get_number_modules
-        _MODS = list(get_number_modules())
+        # discovered by our own package walk (pkgutil order = the application's order): the reference must not
+        # depend on stdnum.util.get_number_modules, which the application itself uses (code under test)
+        import pkgutil
+        import importlib
+        import stdnum
+        _MODS = []
+        for _l, name, _p in pkgutil.walk_packages(stdnum.__path__, 'stdnum.'):
+            try:
+                m = importlib.import_module(name)
+            except Exception:
+                continue
+            if hasattr(m, 'validate') and m.__name__ == name:
+                _MODS.append(m)
     return _MODS
 
 
